@@ -33,7 +33,10 @@ fn find_window(hay: &[u8], secret: &[u8]) -> bool {
         return false;
     }
     for w in secret.windows(8) {
-        if w.iter().all(|&b| b == 0) {
+        // only windows without a zero byte count: a wiped slot is mostly zeros, and a window such as
+        // `c7 00 00 00 00 00 00 00` (last counter byte + zero nonce) is matched by any unrelated non-zero byte that
+        // happens to precede a wiped field (seen once in ~100 far-position scans: the cipher key's last byte)
+        if w.iter().any(|&b| b == 0) {
             continue;
         }
         if hay.windows(8).any(|h| h == w) {
